@@ -26,7 +26,7 @@
    by c01_version16_sound under < 2^15 rounds of lag); size_t tickets do not wrap; callbacks do not touch the queue. *)
 From Coq Require Import ZArith List Bool.
 Require Import Verif.Gen.Gen_bounded_queue Verif.Conc.Machine Verif.BQ.BQModel Verif.BQ.BQProofs.
-Require Import Verif.BQ.BQInvDefs Verif.BQ.BQInvStep Verif.BQ.BQInvMain Verif.BQ.BQInvThm Verif.BQ.BQWake Verif.BQ.BQFifo Verif.BQ.BQTry.
+Require Import Verif.BQ.BQInvDefs Verif.BQ.BQInvStep Verif.BQ.BQInvMain Verif.BQ.BQInvThm Verif.BQ.BQWake Verif.BQ.BQFifo Verif.BQ.BQTry Verif.BQ.BQDead Verif.BQ.BQEntry.
 Import ListNotations.
 Local Open Scope Z_scope.
 
@@ -113,6 +113,26 @@ Theorem c01_exactly_once : forall k progs s, usage_ok k progs = true -> Reach k 
      pay (get_slot s (Z.to_nat (i mod 2 ^ Z.of_nat k))) = Some v).
 Proof. exact bq_exactly_once_full. Qed.
 Print Assumptions c01_exactly_once.
+
+(* the same for client programs written against any public overload (callback / value / pointer / iterator, with or
+   without template arguments): lower = the core operation a call runs, flags after every forwarding wrapper, each forwarded
+   template-argument list regenerated from the source *)
+Theorem c01_entry_points_forward_flags : forall c, entry_ok c = true -> lower c = c_op c.
+Proof. exact bq_lower_faithful. Qed.
+Print Assumptions c01_entry_points_forward_flags.
+
+Theorem c01_exclusive_any_entry : forall k cp s, calls_ok cp = true -> usage_ok k (declared cp) = true ->
+  Reach k (lower_progs cp) s -> err s = false.
+Proof. exact bq_client_exclusive. Qed.
+Print Assumptions c01_exclusive_any_entry.
+
+Theorem c01_exactly_once_any_entry : forall k cp s, calls_ok cp = true -> usage_ok k (declared cp) = true ->
+  Reach k (lower_progs cp) s ->
+  (forall i v, In (i, v) (delivered s) -> In (i, v) (pushed s)) /\ NoDup (map fst (delivered s)) /\ NoDup (map fst (pushed s)) /\
+  (all_done s = true -> forall i v, In (i, v) (pushed s) -> In (i, v) (delivered s) \/
+     pay (get_slot s (Z.to_nat (i mod 2 ^ Z.of_nat k))) = Some v).
+Proof. exact bq_client_exactly_once. Qed.
+Print Assumptions c01_exactly_once_any_entry.
 
 (* real-time order of tickets (FIFO).  held s r u i = thread u holds ticket i of side r in s (acquired, not yet published).
    For any reachable moment s and any later state s' = run s sch: the ticket counters only grow; a ticket that a thread holds in
